@@ -65,7 +65,8 @@ def surround(draw):
     d1 = draw(st.sampled_from([b" ", b"\n", b"\t", b"\r\n"]))
     d2 = draw(st.sampled_from([b" ", b"\n", b"\t", b"\r\n"]))
     suf = draw(S.neutral(0, 3))
-    return (pre + d1 if pre else draw(st.sampled_from([b"", d1])), (d2 + suf) if suf else draw(st.sampled_from([b"", d2])))
+    decoy = draw(st.sampled_from([0, 0, 0, 1, 2, 3]))  # an earlier, differently-cased spelling of the same indicator in the prefix
+    return (pre + d1 if pre else draw(st.sampled_from([b"", d1])), (d2 + suf) if suf else draw(st.sampled_from([b"", d2])), decoy)
 
 
 @st.composite
@@ -128,6 +129,19 @@ def cases():
     return st.fixed_dictionaries({"ind": S.cached("c11.indicator", indicator), "s1": surround(), "s2": surround()})
 
 
+def case_variant(blob: bytes, style: int) -> bytes:
+    cnt = [style]
+
+    def f(m):
+        cnt[0] += 1
+        w = m.group()
+        if style == 3:
+            return w.upper()
+        return w[:1].upper() + w[1:].lower() if cnt[0] % 2 == 0 else w.lower()
+
+    return re.sub(rb"[A-Za-z][A-Za-z0-9-]*", f, blob)
+
+
 def materialise(ind):
     """-> (text, accepted types, canonical value) or None when excluded"""
     k = ind["kind"]
@@ -175,7 +189,12 @@ def check(case) -> Outcome:
     if k == "ip" and all(c in b"0." for c in blob):
         return o.exclude("all-zero IP")
     nt = False
-    for pre, suf in (case["s1"], case["s2"]):
+    for pre, suf, decoy in (case["s1"], case["s2"]):
+        if decoy and k in ("domain", "email", "url", "filename", "posix"):
+            # same indicator, other letter case (per word / label), a few neutral words earlier: what is found at the real
+            # position must not depend on it
+            pre = case_variant(blob, decoy) + b" lorem ipsum " + pre
+            o.label("earlier-case-variant")
         if k == "url" and pre:
             prev = pre[-1]
             ctx10 = pre[-10:]
